@@ -34,7 +34,9 @@ type Case struct {
 	// Bulk: that many further short text parameters follow the generated ones (parameter counts up to
 	// the protocol's 65535 without storing them in the case)
 	Bulk int `json:"bulk,omitempty"`
-	TLS        bool     `json:"tls,omitempty"`
+	// Twice: the portal is executed twice
+	Twice bool `json:"twice,omitempty"`
+	TLS   bool `json:"tls,omitempty"`
 }
 
 const q = "select $1"
@@ -143,6 +145,10 @@ func (c Case) history() (play.History, []string) {
 		h.Msgs = append(h.Msgs, script.CMsg{K: "B", Portal: c.oname(i), Name: "s", PFmts: fm, Params: vals, RFmts: orf})
 	}
 	h.Msgs = append(h.Msgs, script.CMsg{K: "D", Kind: 'P', Portal: c.pname()}, script.CMsg{K: "E", Portal: c.pname()})
+	if c.Twice {
+		// a portal stays what its Bind made it: executed again, the statement sees the same parameters
+		h.Msgs = append(h.Msgs, script.CMsg{K: "E", Portal: c.pname()})
+	}
 	for i := range c.Others {
 		h.Msgs = append(h.Msgs, script.CMsg{K: "E", Portal: c.oname(i)})
 	}
@@ -176,6 +182,7 @@ func Run(c Case) core.Result {
 	lab(c.TLS, "inside-tls")
 	lab(len(c.Params) > 100, ">100-parameters")
 	lab(c.Bulk > 0, ">=32767-parameters")
+	lab(c.Twice, "portal-executed-twice")
 	lab(len(c.Others) > 0, "several-portals-bound-before-execute")
 	lab(len(c.Others) > 0 && c.NameFamily != "", "names="+c.NameFamily)
 	res.Labels = append(res.Labels, "pshape="+c.PShape)
